@@ -786,7 +786,7 @@ func c16Recover(f func()) (panicked interface{}) {
 
 func (k *c16Case) key(stage string) string {
 	if len(k.Feats) > 0 {
-		return "C16:" + strings.Join(k.Feats, "+")
+		return "C16:" + strings.Join(k.Feats, "+") + ":" + stage
 	}
 	return "C16:" + stage
 }
@@ -1254,8 +1254,8 @@ func (x *c16Runner) genCase(sig *c16Sig) (*c16Case, map[string]*c16Val) {
 		} else if splitMode == 2 && p.Ty.MD == 0 && c.Rng.Intn(2) == 0 {
 			split = true
 			v = g.genTyped(c16Ty{p.Ty.Base, 0, p.Ty.AD + 1}, false, -1, keys)
-			if p.Ty.AD == 0 && sig.structByName(p.Ty.Base) != nil {
-				g.feat("split-map-over-struct")
+			if sig.structByName(p.Ty.Base) != nil {
+				x.r.hist("case_split_map_over_struct_param")
 			}
 		} else {
 			v = g.genTyped(p.Ty, true, -1, nil)
@@ -1284,7 +1284,8 @@ func (x *c16Runner) genCase(sig *c16Sig) (*c16Case, map[string]*c16Val) {
 		if !withInclude && p.Ty.Base == "map" && p.Ty.AD == 0 && p.Ty.MD == 0 && v.K == 'o' {
 			for _, key := range v.Keys {
 				if !c16IsIdent(key) {
-					g.feat("no-include-untyped-map-key")
+					x.r.hist("case_no_include_untyped_map_nonident_key")
+					break
 				}
 			}
 		}
@@ -1326,7 +1327,7 @@ func (x *c16Runner) genCase(sig *c16Sig) (*c16Case, map[string]*c16Val) {
 	sort.Strings(k.Feats)
 
 	// direction B text (only for hazard-free cases: hazards are JSON-side notions)
-	if len(k.Feats) == 0 || (len(k.Feats) == 1 && k.Feats[0] == "split-map-over-struct") {
+	if len(k.Feats) == 0 {
 		var mb strings.Builder
 		mb.WriteString("@include \"decl.mro\"\n\n")
 		if len(splits) > 0 {
@@ -1426,6 +1427,48 @@ func c16HasNestedCollectionInStruct(v *c16Val, inStruct bool) bool {
 	return false
 }
 
+// fixedF: the minimal shape of finding C16-N4 (struct literal with one member
+// bound to a reference, resolved for a fork): run first on every run.
+func (x *c16Runner) fixedF() {
+	r := x.r
+	dir := filepath.Join(x.c.Scratch, "fixedF")
+	os.MkdirAll(dir, 0o755)
+	decl := "struct S(\n    string     name,\n    map<int[]> m,\n    map        u,\n)\n\nstage ST(\n    in  S   s,\n    out int o,\n    src comp \"x\",\n)\n"
+	os.WriteFile(filepath.Join(dir, "decl.mro"), []byte(decl), 0o644)
+	_, _, ast, err := syntax.ParseSourceBytes([]byte(decl), "decl.mro", []string{dir}, false)
+	if err != nil {
+		r.note("harness: fixedF declaration: %v", err)
+		return
+	}
+	args := core.MarshalerMap{"s": core.MarshalerMap{
+		"name": &syntax.StringExp{Value: "n"},
+		"m":    json.RawMessage(`{"a b": [1, 2]}`),
+		"u":    core.LazyArgumentMap{"x-y": json.RawMessage(`{"z": 1}`)},
+	}}
+	in := map[string]interface{}{"decl.mro": decl, "resolved_args": `{"s": {"name": "n", "m": {"a b": [1,2]}, "u": {"x-y": {"z": 1}}}}`}
+	var src string
+	pan := c16Recover(func() {
+		src, err = core.BuildCallSource("ST", args, nil, ast.Callables.Table["ST"], &ast.TypeTable, []string{dir})
+	})
+	r.count("fixedF", true)
+	if pan != nil || err != nil {
+		r.violate(Violation{Kind: "property", Key: "C16:fork-invocation-build", What: fmt.Sprintf("%v %v", pan, err), Input: in})
+		return
+	}
+	if _, _, _, cerr := syntax.ParseSourceBytes([]byte(src), "call.mro", []string{dir}, false); cerr != nil {
+		r.violate(Violation{Kind: "property", Key: "C16:fork-invocation-does-not-compile",
+			What: "the per-fork invocation text does not compile: " + cerr.Error(), Input: in, Impl: src})
+		return
+	}
+	d, derr := core.InvocationDataFromSource([]byte(src), []string{dir})
+	want, _ := c16CanonText([]byte(`{"name": "n", "m": {"a b": [1,2]}, "u": {"x-y": {"z": 1}}}`), true)
+	if derr != nil {
+		r.violate(Violation{Kind: "property", Key: "C16:fork-invocation-does-not-parse", What: derr.Error(), Input: in, Impl: src})
+	} else if msg := c16CompareData(d, "ST", []string{"s"}, map[string]string{"s": want}, nil, ""); msg != "" {
+		r.violate(Violation{Kind: "property", Key: "C16:fork-invocation-args", What: msg, Input: in, Impl: src})
+	}
+}
+
 // directionF: the pure core of Fork.writeInvocation — BuildCallSource on
 // resolved arguments with the compiled callable and type table.
 func (x *c16Runner) directionF(sig *c16Sig, ast *syntax.Ast) {
@@ -1453,7 +1496,7 @@ func (x *c16Runner) directionF(sig *c16Sig, ast *syntax.Ast) {
 	}
 	k := &c16Case{Sig: sig, Decl: sig.Decl, MroPaths: []string{sig.Dir}}
 	if structured {
-		k.Feats = []string{"fork-args-structured-struct-member"}
+		r.hist("F_struct_member_collection_in_structured_args")
 	}
 	in := map[string]interface{}{"decl.mro": sig.Decl, "resolved_args": texts,
 		"note": "arguments handed over as MarshalerMap / LazyArgumentMap / marshallerArray / ValExp / RawMessage trees"}
@@ -1587,11 +1630,12 @@ func runC16(c *Ctx) {
 		"token class vs Lean printsAsInt. non-trivial = value depth>=2 or split or escaped string; distinct = distinct input text"
 	x := &c16Runner{c: c, r: r}
 	x.corpus()
+	x.fixedF()
 
-	nsig, per := 60, 14
-	nflt := 3000
+	nsig, per := 220, 16
+	nflt := 20000
 	if c.Thorough {
-		nsig, per, nflt = 1500, 24, 120000
+		nsig, per, nflt = 6000, 24, 400000
 	}
 	x.floats(nflt)
 	for i := 0; i < nsig; i++ {
